@@ -43,10 +43,11 @@ func c15Scenarios(cfg runCfg) []Scenario {
 }
 
 type c15tree struct {
-	inlineExpr string // if set: generators for this expression are constructed inside the property, too
-	gx         *GX
-	gen        *rapid.Generator[any]
-	ctors      *atomic.Int64
+	buildInside bool   // every test case builds a generator on the shared one and draws from it
+	inlineExpr  string // if set: generators for this expression are constructed inside the property, too
+	gx          *GX
+	gen         *rapid.Generator[any]
+	ctors       *atomic.Int64
 }
 
 // c15Build builds the round's tree: a random expression biased to lazily initialised nodes, wrapped in a
@@ -78,7 +79,7 @@ func c15Build(seed uint64) c15tree {
 		ctors.Add(1)
 		return inner
 	})
-	tr := c15tree{gx: gx, gen: gen, ctors: ctors}
+	tr := c15tree{gx: gx, gen: gen, ctors: ctors, buildInside: seed%3 == 1}
 	if seed%7 == 2 || seed%7 == 6 {
 		tr.inlineExpr = fmt.Sprintf(`([a-c]|xy+|[0-9]{1,3}z?){1,4}(?:r%x)?`, seed&0xffffff) // unique text per round, equal for the fresh twin
 	}
@@ -137,6 +138,29 @@ func c15PropSub(tr c15tree, mode int, prefix int, log *[]string, bad *string) (f
 		}
 		for i := 0; i < 3; i++ {
 			var v any
+			if tr.buildInside && i == 1 {
+				// generators BUILT on the shared one by every test case of every check (Map, Filter, OneOf, Ptr, SliceOfN,
+				// Custom), while other checks are in their first use of it
+				var built *rapid.Generator[any]
+				switch prefix % 5 {
+				case 0:
+					built = rapid.Map(tr.gen, func(x any) any { return x })
+				case 1:
+					built = tr.gen.Filter(func(any) bool { return true })
+				case 2:
+					built = rapid.OneOf(tr.gen, tr.gen)
+				case 3:
+					built = rapid.Map(rapid.SliceOfN(tr.gen, 1, 1), func(s []any) any { return s[0] })
+				default:
+					built = rapid.Custom(func(ct *rapid.T) any { return tr.gen.Draw(ct, "c") })
+				}
+				v = built.Draw(t, "built")
+				*log = append(*log, canon(v))
+				if c := tr.gx.Check(v); c != "" && *bad == "" {
+					*bad = c
+				}
+				continue
+			}
 			if mode == 2 && i == 0 {
 				s := sub.Draw(t, "s") // the shared tree used as a sub-generator
 				*log = append(*log, canon(s))
